@@ -84,6 +84,7 @@ var (
 	cLegacyRefused = simrt.RegisterCounter("probe_rejoin_without_optneg_refused_not_judged")
 	cOddRefused    = simrt.RegisterCounter("probe_unusual_input_refused_not_judged")
 	cBusy          = simrt.RegisterCounter("op_busy_server_many_connections_and_devices")
+	cHexPrefix     = simrt.RegisterCounter("probe_hex_members_with_0x_prefix")
 	fClientGone    = simrt.RegisterCounter("fault_client_disconnected_while_storage_works")
 	fProvision     = simrt.RegisterCounter("fault_device_provisioned_after_first_requests")
 	fKEKRotate     = simrt.RegisterCounter("fault_kek_replaced_in_store")
@@ -1226,6 +1227,15 @@ func doRequest(w *world, r *sim.Rand, rq *request, c *reqCtx, faults, live bool)
 			body = bytes.Replace(body, []byte(`"MessageType":"RejoinReq"`), []byte(`"MessageType":"JoinReq"`), 1)
 		}
 		simrt.Count(fConfused)
+	}
+	if rq.rawKind == 0 && rq.kind != 4 && r.Intn(4) == 0 {
+		// hexadecimal members may carry the 0x prefix (the backend types accept
+		// it, like the SenderID spelling above)
+		body = bytes.Replace(body, []byte(`"PHYPayload":"`), []byte(`"PHYPayload":"0x`), 1)
+		if rq.cfList != nil && r.Intn(2) == 0 {
+			body = bytes.Replace(body, []byte(`"CFList":"`), []byte(`"CFList":"0x`), 1)
+		}
+		simrt.Count(cHexPrefix)
 	}
 	if faults && rq.rawKind == 0 && rq.cfList == nil && rq.kind != 4 && r.Intn(3) == 0 {
 		rq.odd = true
